@@ -162,10 +162,16 @@ ExactlyAsConfigured(c, cs, st, t) ==
 
 NoRunaway(c, cs, st, t) == st.k \in {"running", "returned", "raised"}
 
-Clauses == {"AtMost", "Spacing", "RetryOnlyWhenAllowed", "StopsAtFirstSuccess", "ReturnsThatAttempt",
-            "NonRetryableImmediately", "LastAttemptVerbatim", "ExactlyAsConfigured", "NoRunaway"}
+(* "as configured": the caller's parameters are the configuration of the TASK, not of one invocation - the load     *)
+(* generator hands the same parameter object to every invocation of the task (ParamSource.params()).  A call must *)
+(* therefore leave the retry parameters it was given as they are; pu = "the caller's retry parameters are the same *)
+(* after the call as before".  (The transcription only reads them: params.get.)                                    *)
+ParamsUntouched(pu) == pu
 
-Holds(name, c, cs, st, t) ==
+Clauses == {"AtMost", "Spacing", "RetryOnlyWhenAllowed", "StopsAtFirstSuccess", "ReturnsThatAttempt",
+            "NonRetryableImmediately", "LastAttemptVerbatim", "ExactlyAsConfigured", "NoRunaway", "ParamsUntouched"}
+
+Holds(name, c, cs, st, t, pu) ==
     CASE name = "AtMost" -> AtMost(c, cs, st, t)
       [] name = "Spacing" -> Spacing(c, cs, st, t)
       [] name = "RetryOnlyWhenAllowed" -> RetryOnlyWhenAllowed(c, cs, st, t)
@@ -175,10 +181,11 @@ Holds(name, c, cs, st, t) ==
       [] name = "LastAttemptVerbatim" -> LastAttemptVerbatim(c, cs, st, t)
       [] name = "ExactlyAsConfigured" -> ExactlyAsConfigured(c, cs, st, t)
       [] name = "NoRunaway" -> NoRunaway(c, cs, st, t)
+      [] name = "ParamsUntouched" -> ParamsUntouched(pu)
 
-Failing(c, cs, st, t) == {name \in Clauses : ~Holds(name, c, cs, st, t)}
+Failing(c, cs, st, t, pu) == {name \in Clauses : ~Holds(name, c, cs, st, t, pu)}
 
-PropertyHolds == Failing(cfg, calls, status, now) = {}
+PropertyHolds == Failing(cfg, calls, status, now, TRUE) = {}     \* the transcription never writes to the parameters
 
 (* the transcription of the code reacts to every outcome as documented: retry (after the wait period) *)
 (* exactly when the documentation allows a retry and this is not the last attempt                      *)
